@@ -76,14 +76,22 @@ def sources(work, tag, text):
         fh.write(text.encode('utf-8'))
     with gzip.open(pg, 'wb') as fh:
         fh.write(text.encode('utf-8'))
+    # the same content as a gzip file of several members (cat a.gz b.gz, bgzip): still "the gzip-compressed content"
+    pm = os.path.join(work, tag + '.multi.dat.gz')
+    raw = text.encode('utf-8')
+    cut = [0, len(raw) // 3, 2 * len(raw) // 3, len(raw)]
+    with open(pm, 'wb') as fh:
+        for a, b in zip(cut, cut[1:]):
+            fh.write(gzip.compress(raw[a:b]))
     p16 = os.path.join(work, tag + '.utf16.dat')
-    with open(p16, 'w', encoding='utf-16') as fh:
+    with open(p16, 'w', encoding='utf-16', newline='') as fh:
         fh.write(text)
     return [
         ('path', lambda: p), ('gz-path', lambda: pg),
         ('text-file-utf16', lambda: open(p16, 'r', encoding='utf-16')),
+        ('gz-path-multimember', lambda: pm), ('gzip-binary-stream-multimember', lambda: gzip.open(pm, 'rb')),
         ('text-file', lambda: open(p, 'r', encoding='utf-8')), ('binary-file', lambda: open(p, 'rb')),
-        ('StringIO', lambda: io.StringIO(text)), ('BytesIO', lambda: io.BytesIO(text.encode('utf-8'))),
+        ('StringIO', lambda: io.StringIO(text, newline=None)), ('BytesIO', lambda: io.BytesIO(text.encode('utf-8'))),
         ('gzip-text-stream', lambda: gzip.open(pg, 'rt', encoding='utf-8')), ('gzip-binary-stream', lambda: gzip.open(pg, 'rb')),
     ]
 
@@ -100,19 +108,22 @@ def readers(hpo):
 OTHERS = {'int': 5, 'none': None, 'bytes': b'/tmp/x', 'pathlib.Path': None, 'float': 1.5, 'list': ['x'], 'dict': {}}
 
 
-def reader_product(work):
+EOLS = {'lf': '\n', 'crlf': '\r\n', 'cr': '\r'}
+
+
+def reader_product(work, unis=(False, True), eols=('lf', 'crlf', 'cr'), others=True):
     p0 = os.path.join(work, 'hpo0.json')
     with open(p0, 'w', encoding='utf-8') as fh:
         fh.write(obographs_doc(False))
     hpo = hpotk.load_minimal_ontology(p0)
     out = []
     for rname, (mk, fn) in readers(hpo).items():
-        for uni in (False, True):
-            text = mk(uni)
+        for uni, eol in [(u, e) for u in unis for e in eols]:
+            text = mk(uni).replace('\n', EOLS[eol])
             srcs = sources(work, 'r', text)
             ref = None
             for kind, factory in srcs:
-                rec = {'reader': rname, 'kind': kind, 'non_ascii': uni}
+                rec = {'reader': rname, 'kind': kind, 'non_ascii': uni, 'eol': eol}
                 try:
                     rec['result'] = fn(factory())
                 except Exception as e:
@@ -123,7 +134,7 @@ def reader_product(work):
                 rec.pop('result', None)
                 out.append(rec)
         OTHERS['pathlib.Path'] = pathlib.Path(p0)
-        for oname, o in OTHERS.items():
+        for oname, o in (OTHERS.items() if others else ()):
             rec = {'reader': rname, 'kind': 'other:' + oname}
             try:
                 fn(o)
@@ -138,7 +149,7 @@ def strip_created(text):
     return re.sub(r'created=[^;\n]*', 'created=T', text)
 
 
-def writer_product(work):
+def writer_product(work, others=True):
     sim = SimilarityContainer({'k': 'v'})
     sim.set_similarity('HP:1', 'HP:é', 1.5)
     sim.set_similarity('HP:1', 'HP:1', 0.25)
@@ -168,7 +179,7 @@ def writer_product(work):
             rec['same_as_path'] = ('content' in rec and rec['content'] == ref)
             rec.pop('content', None)
             out.append(rec)
-        for oname, o in OTHERS.items():
+        for oname, o in (OTHERS.items() if others else ()):
             rec = {'writer': wname, 'kind': 'other:' + oname}
             try:
                 obj.to_csv(o)
@@ -194,6 +205,47 @@ def classify_read(res, arg):
     return 'unknown:' + type(res).__name__
 
 
+PROBE_RAW = 'a\r\nb\rc\n\r\n\rd\n\ne\r'
+PROBE_TXT = 'a\nb\r\nc\rd\n\ne'
+
+
+def enc_name(handle):
+    import codecs
+    try:
+        return codecs.lookup(handle.encoding).name
+    except Exception:
+        return 'unknown:' + str(getattr(handle, 'encoding', None))
+
+
+def read_layer(make_arg):
+    """The text layer of the handle the helper creates for reading: does its encoding follow the `encoding`
+    parameter (default: sys.getdefaultencoding(); explicit: latin-1), and what it delivers for PROBE_RAW."""
+    import sys as _sys
+    import codecs
+    res = open_text_io_handle_for_reading(make_arg())
+    follows = enc_name(res) == codecs.lookup(_sys.getdefaultencoding()).name
+    got = res.read()
+    res.close()
+    res = open_text_io_handle_for_reading(make_arg(), encoding='latin-1')
+    follows = follows and enc_name(res) == 'iso8859-1'
+    res.close()
+    return {'enc_follows': follows, 'raw': PROBE_RAW, 'got': got}
+
+
+def write_layer(make_arg, read_back):
+    import sys as _sys
+    import codecs
+    res = open_text_io_handle_for_writing(make_arg())
+    follows = enc_name(res) == codecs.lookup(_sys.getdefaultencoding()).name
+    res.write(PROBE_TXT)
+    res.close()
+    got = read_back().decode('utf-8')
+    res = open_text_io_handle_for_writing(make_arg(), encoding='latin-1')
+    follows = follows and enc_name(res) == 'iso8859-1'
+    res.close()
+    return {'enc_follows': follows, 'linesep': os.linesep, 'txt': PROBE_TXT, 'got': got}
+
+
 def decision_table(work):
     out = []
     d = os.path.join(work, 'names')
@@ -209,7 +261,20 @@ def decision_table(work):
                 res.close()
             except Exception as e:
                 obs = 'raise:' + exn_name(e)
-            out.append({'mode': mode, 'arg': ['str', nm], 'obs': obs})
+            rec = {'mode': mode, 'arg': ['str', nm], 'obs': obs}
+            if obs in ('open-plain', 'open-gz'):
+                try:
+                    if mode == 'read':
+                        with open(p, 'wb') as fh:
+                            fh.write(gzip.compress(PROBE_RAW.encode()) if nm.endswith('.gz') else PROBE_RAW.encode())
+                        rec['layer'] = read_layer(lambda: p)
+                    else:
+                        rec['layer'] = write_layer(lambda: p, lambda: (gzip.decompress(open(p, 'rb').read()) if nm.endswith('.gz') else open(p, 'rb').read()))
+                except Exception as e:
+                    rec['layer'] = {'err': exn_name(e) + ': ' + str(e)[:100]}
+                with open(p, 'wb') as fh:
+                    fh.write(gzip.compress(b'x') if nm.endswith('.gz') else b'x')
+            out.append(rec)
     p = os.path.join(d, 'plain')
     streams = {
         'text': [lambda: open(p, 'r'), lambda: io.StringIO('x'), lambda: gzip.open(os.path.join(d, 'a.gz'), 'rt'),
@@ -230,11 +295,26 @@ def decision_table(work):
                     obs = classify_read(res, arg)
                 except Exception as e:
                     obs = 'raise:' + exn_name(e)
-                out.append({'mode': mode, 'arg': [kind, k], 'obs': obs})
+                rec = {'mode': mode, 'arg': [kind, k], 'obs': obs}
                 try:
                     arg.close()
                 except Exception:
                     pass
+                if obs == 'wrap':
+                    try:
+                        if mode == 'read':
+                            rec['layer'] = read_layer(lambda: io.BytesIO(PROBE_RAW.encode()))
+                        else:
+                            class Keep(io.BytesIO):
+                                data = b''
+
+                                def close(self):
+                                    Keep.data = self.getvalue()
+                                    super().close()
+                            rec['layer'] = write_layer(lambda: Keep(), lambda: Keep.data)
+                    except Exception as e:
+                        rec['layer'] = {'err': exn_name(e) + ': ' + str(e)[:100]}
+                out.append(rec)
         for oname, o in OTHERS.items():
             if oname == 'pathlib.Path':
                 o = pathlib.Path(p)
@@ -249,6 +329,11 @@ def decision_table(work):
 
 def observe(payload):
     work = payload['workdir']
+    if payload.get('config'):
+        # a second process configuration (e.g. a non-UTF-8 locale): the reader and writer products only
+        import locale
+        return {'config': payload['config'], 'preferred_encoding': locale.getpreferredencoding(False),
+                'readers': reader_product(work, unis=(True,), eols=('lf',), others=False), 'writers': writer_product(work, others=False)}
     res = {'decisions': decision_table(work), 'readers': reader_product(work), 'writers': writer_product(work),
            'url': [[s, bool(looks_like_url(s))] for s in payload['strings']],
            'gz': [[s, bool(looks_gzipped(s))] for s in payload['strings']]}
